@@ -100,6 +100,10 @@ func (p proxy) SubscribeID(action uint32) (func(), chan []byte, error) {
 		return nil, nil, err
 
 	}
+	// the subscriber which follows the first one must not return
+	// before the registration of the first one is completed.
+	unlock := p.lockSubscriptions()
+	defer unlock()
 	subscriptions := p.client.State(fmt.Sprintf("%d.%d.%d", p.service, p.object, action), 1)
 	if subscriptions == 1 {
 		handler := rand.Int()
@@ -111,6 +115,8 @@ func (p proxy) SubscribeID(action uint32) (func(), chan []byte, error) {
 		}
 	}
 	return func() {
+		unlock := p.lockSubscriptions()
+		defer unlock()
 		subscriptions := p.client.State(fmt.Sprintf("%d.%d.%d", p.service, p.object, action), -1)
 		if subscriptions == 0 {
 			handler := p.client.State(fmt.Sprintf("%d.%d.%d.handler", p.service, p.object, action), 0)
@@ -123,6 +129,16 @@ func (p proxy) SubscribeID(action uint32) (func(), chan []byte, error) {
 		}
 		cancel()
 	}, bytes, nil
+}
+
+// lockSubscriptions serializes the subscriptions of the proxies which
+// share the same client. It returns the function to release the lock.
+func (p proxy) lockSubscriptions() func() {
+	if c, ok := p.client.(*client); ok {
+		c.subscribeMutex.Lock()
+		return c.subscribeMutex.Unlock
+	}
+	return func() {}
 }
 
 // ServiceID returns the service identifier.
